@@ -259,22 +259,34 @@ PROPS = {
         "module": "MantraDex.Properties.C06", "ns": "MantraDex.C06",
         "theorems": ["farm_terms_shape", "farm_terms_epochs_nodup", "term_le_emission", "rewards_after_cursor", "reclaim_pays_nothing",
                      "claim_sets_cursor", "claim_farms_bounded", "update_weights_effect_next_epoch",
-                     "MantraDex.C07Split.epoch_shares_sum_le_rate", "MantraDex.C07Split.span_rewards_sum_le"],
-        "extra_modules": ["MantraDex.Properties.C07Split"],
+                     "MantraDex.C07Split.epoch_shares_sum_le_rate", "MantraDex.C07Split.span_rewards_sum_le",
+                     "MantraDex.C06Sys.claim_pays_entries", "MantraDex.C06Sys.entry_shape", "MantraDex.C06Sys.epoch_paid_le_emission",
+                     "MantraDex.C06Sys.no_epoch_paid_twice_partial", "MantraDex.C06Sys.no_epoch_paid_twice_nonzero",
+                     "MantraDex.C06Sys.no_epoch_paid_twice_default_until"],
+        "extra_modules": ["MantraDex.Properties.C07Split", "MantraDex.Properties.C06Sys"],
         "streams": {"fm_hist": (80, 4000)},
-        "what": "every reward term is floor(rate*user_weight/total_weight) for an epoch inside the farm's life and strictly after the claim cursor, "
+        "what": "END TO END OVER WHOLE HISTORIES (C06Sys): a ledger of every reward payment is derived from the history (the per-epoch terms of every ACCEPTED "
+                "top-level Claim; the coins a claim sends are exactly the sum of its entries, claim_pays_entries); in every history of account-signed transactions from a "
+                "fresh deployment (nested calls, replies, rollbacks, injected faults; epoch configuration unchanged): for every farm (identifier, LP token, emission rate) and "
+                "every epoch the rewards paid to ALL users for that epoch add up to at most the epoch's emission (epoch_paid_le_emission); every entry is floor(rate * user weight "
+                "in effect / total weight in effect) with user weight <= total != 0 (entry_shape); no (user, LP token, farm, epoch) receives a non-zero amount twice "
+                "(no_epoch_paid_twice_partial / _nonzero; the version counting zero-weight entries is refuted by an evaluated 15-transaction counterexample: a backdated claim after a "
+                "full exit rewinds the cursor and the next claim re-lists old epochs with weight 0 - nothing is paid twice - and holds when every claim uses the default until, "
+                "no_epoch_paid_twice_default_until). Handler level: every reward term is floor(rate*user_weight/total_weight) for an epoch inside the farm's life and strictly after the claim cursor, "
                 "at most one term per epoch; <= the epoch's emission when user weight <= total; the cursor moves to until (<= current epoch), "
                 "re-claiming pays nothing and earlier untils are refused (no epoch paid twice); claimed_amount never exceeds the funded amount; "
                 "weight changes are recorded for epoch+1 only. End-to-end bound over whole histories: ledger monitor monClaim on every claim"
                 "; all users together: the shares of any user set whose weights are covered by the total add up to <= the epoch's emission, and over a span to <= rate x epochs (C07Split.epoch_shares_sum_le_rate, span_rewards_sum_le)",
-        "assumptions": ["that the weights used are the true per-epoch weights is C07's refinement lemmas + the ledger monitor (per generated claim)"],
+        "assumptions": ["C06Sys holds while the epoch configuration is unchanged along the history (hypothesis Stable, as C10Sys); on the implementation the same ledger is "
+                        "recomputed independently by the harness and compared on every generated claim (monClaim)"],
     },
     "C07": {
         "module": "MantraDex.Properties.C07", "ns": "MantraDex.C07",
         "theorems": ["histSet_sorted", "histGet_histSet", "weightAt_histSet_before", "address_scan_eq_weightAt", "contract_scan_eq_weightAt",
                      "sync_preserves_weightAt", "farm_terms_sum_eq_ledger", "epoch_share_floor", "query_eq_claim_single_lp",
-                     "MantraDex.C07Split.spanReward_split", "MantraDex.C07Split.claim_split_total", "MantraDex.C07Split.claim_split_state"],
-        "extra_modules": ["MantraDex.Properties.C07Split"],
+                     "MantraDex.C07Split.spanReward_split", "MantraDex.C07Split.claim_split_total", "MantraDex.C07Split.claim_split_state",
+                     "MantraDex.C06Sys.claim_pays_entries", "MantraDex.C06Sys.entry_shape"],
+        "extra_modules": ["MantraDex.Properties.C07Split", "MantraDex.Properties.C06Sys"],
         "streams": {"fm_hist": (80, 4000)},
         "also_tags": ["C06-overpaid"],   # C07 says "never more": the ledger monitor's over-payment tag decides C07 as well
         "what": "refinement core: the user scan and the total-weight scan of the compacted history compute the ledger's weight in effect (Spec.weightAt); "
